@@ -72,7 +72,7 @@ ufunc handlerNamed(m int, name string) int
 iface (m MuxMapper) GetHandler(name string) (h Handler, ok bool)
   trusted
   pure
-  ensures ok ==> h != nil && ifaceVal(h) != 0 && ifaceVal(h) == handlerNamed(ifaceVal(m), name) && typeIs(h, "*pipeline.Pipeline")
+  ensures ok ==> h != nil && ifaceVal(h) != 0 && ifaceVal(h) == handlerNamed(ifaceVal(m), name) && typeIs(h, "*pipeline.Pipeline") && pipeline.bound(ptr(ifaceVal(h), "*pipeline.Pipeline").flow)
 
 iface (h Handler) Handle(ctx *Context) (result string)
   trusted
